@@ -75,6 +75,12 @@ type Witness struct {
 	Pos   string
 	What  string
 	Chain []string
+	// Loc: type of the object written into (the struct of a field store, the
+	// slice/array of an element store, the map of an update, else the type of
+	// the stored location); nil = unknown.  Go being type-safe, such a write
+	// can only land in memory reachable from a root whose type can contain a
+	// location of that type.
+	Loc types.Type
 }
 
 func (w *Witness) String() string {
@@ -619,6 +625,24 @@ func (e *Effects) analyse(f *ssa.Function, first bool) {
 	}
 	wr := func(rs rootSet, wit *Witness) {
 		for r := range rs {
+			if wit != nil && wit.Loc != nil {
+				var rt types.Type
+				switch r.Kind {
+				case rParam:
+					if r.Idx < len(f.Params) {
+						rt = f.Params[r.Idx].Type()
+					}
+				case rGlobal:
+					rt = r.G.Type()
+				case rFreeVar:
+					if r.Idx < len(f.FreeVars) {
+						rt = f.FreeVars[r.Idx].Type()
+					}
+				}
+				if rt != nil && !typeMayContain(rt, wit.Loc) {
+					continue
+				}
+			}
 			switch r.Kind {
 			case rParam:
 				if r.Deep {
@@ -659,7 +683,7 @@ func (e *Effects) analyse(f *ssa.Function, first bool) {
 			if _, isAlloc := x.Addr.(*ssa.Alloc); isAlloc {
 				return
 			}
-			wr(st.origins(x.Addr), &Witness{Pos: pos, What: "store " + shortInstr(x) + " in " + fname})
+			wr(st.origins(x.Addr), &Witness{Pos: pos, What: "store " + shortInstr(x) + " in " + fname, Loc: storeContainer(x.Addr)})
 		case *ssa.MapUpdate:
 			if first {
 				e.MapUpdates++
@@ -670,7 +694,7 @@ func (e *Effects) analyse(f *ssa.Function, first bool) {
 					fmt.Fprintf(os.Stderr, "   contents[%s]=%v\n", site.Name(), c)
 				}
 			}
-			wr(st.origins(x.Map), &Witness{Pos: pos, What: "map update " + shortInstr(x) + " in " + fname})
+			wr(st.origins(x.Map), &Witness{Pos: pos, What: "map update " + shortInstr(x) + " in " + fname, Loc: x.Map.Type()})
 		case *ssa.Send:
 			wr(st.origins(x.Chan), &Witness{Pos: pos, What: "channel send in " + fname})
 		case *ssa.Go:
@@ -688,7 +712,7 @@ func (e *Effects) analyse(f *ssa.Function, first bool) {
 			cs := e.Summary(cl)
 			for k, wit := range cs.WritesFree {
 				if k < len(x.Bindings) {
-					wr(st.deep(x.Bindings[k]), &Witness{Pos: wit.Pos, What: wit.What, Chain: append([]string{fname + " (creates closure)"}, wit.Chain...)})
+					wr(st.deep(x.Bindings[k]), &Witness{Pos: wit.Pos, What: wit.What, Chain: append([]string{fname + " (creates closure)"}, wit.Chain...), Loc: wit.Loc})
 				}
 			}
 		case *ssa.Return:
@@ -758,12 +782,12 @@ func (e *Effects) applyCall(st *funcState, sum *FuncEffect, c ssa.CallInstructio
 		case "append":
 			// append may write into the spare capacity of its first argument's array
 			if len(com.Args) > 1 {
-				wr(st.origins(com.Args[0]), &Witness{Pos: pos, What: "append into possibly shared backing array (" + shortInstr(c) + ") in " + fname})
+				wr(st.origins(com.Args[0]), &Witness{Pos: pos, What: "append into possibly shared backing array (" + shortInstr(c) + ") in " + fname, Loc: com.Args[0].Type()})
 			}
 		case "copy":
-			wr(st.origins(com.Args[0]), &Witness{Pos: pos, What: "copy into destination in " + fname})
+			wr(st.origins(com.Args[0]), &Witness{Pos: pos, What: "copy into destination in " + fname, Loc: com.Args[0].Type()})
 		case "delete", "clear":
-			wr(st.origins(com.Args[0]), &Witness{Pos: pos, What: b.Name() + " in " + fname})
+			wr(st.origins(com.Args[0]), &Witness{Pos: pos, What: b.Name() + " in " + fname, Loc: com.Args[0].Type()})
 		}
 		return
 	}
@@ -798,7 +822,7 @@ func (e *Effects) applyCall(st *funcState, sum *FuncEffect, c ssa.CallInstructio
 		}
 		s := e.Summary(g)
 		chain := func(w *Witness) *Witness {
-			return &Witness{Pos: w.Pos, What: w.What, Chain: append([]string{fname + " (" + pos + ")"}, w.Chain...)}
+			return &Witness{Pos: w.Pos, What: w.What, Chain: append([]string{fname + " (" + pos + ")"}, w.Chain...), Loc: w.Loc}
 		}
 		for j, wit := range s.WritesParam {
 			if j < len(args) {
@@ -846,4 +870,88 @@ func holdsRefs(t types.Type) bool {
 		return refCarrying(u.Elem())
 	}
 	return refCarrying(t)
+}
+
+// storeContainer: the type of the object a store through addr writes into.
+func storeContainer(addr ssa.Value) types.Type {
+	switch a := addr.(type) {
+	case *ssa.FieldAddr:
+		if p, ok := a.X.Type().Underlying().(*types.Pointer); ok {
+			return p.Elem()
+		}
+	case *ssa.IndexAddr:
+		t := a.X.Type()
+		if p, ok := t.Underlying().(*types.Pointer); ok {
+			return p.Elem() // *[n]T
+		}
+		return t
+	}
+	if p, ok := addr.Type().Underlying().(*types.Pointer); ok {
+		return p.Elem()
+	}
+	return nil
+}
+
+var typeContainMemo = map[[2]types.Type]bool{}
+
+// typeMayContain: memory reachable from a value of type root may hold a
+// location of (or inside an object of) type loc.  Interfaces, type
+// parameters, functions (captured variables) and unsafe pointers may lead
+// anywhere.
+func typeMayContain(root, loc types.Type) bool {
+	key := [2]types.Type{root, loc}
+	if v, ok := typeContainMemo[key]; ok {
+		return v
+	}
+	seen := map[types.Type]bool{}
+	var walk func(t types.Type) bool
+	walk = func(t types.Type) bool {
+		if t == nil || seen[t] {
+			return false
+		}
+		seen[t] = true
+		if types.Identical(t, loc) || (isAggregate(loc) && types.Identical(t.Underlying(), loc.Underlying())) {
+			return true
+		}
+		switch u := t.Underlying().(type) {
+		case *types.Basic:
+			return u.Kind() == types.UnsafePointer
+		case *types.Pointer:
+			return walk(u.Elem())
+		case *types.Slice:
+			return walk(u.Elem())
+		case *types.Array:
+			return walk(u.Elem())
+		case *types.Map:
+			return walk(u.Key()) || walk(u.Elem())
+		case *types.Chan:
+			return walk(u.Elem())
+		case *types.Struct:
+			for i := 0; i < u.NumFields(); i++ {
+				if walk(u.Field(i).Type()) {
+					return true
+				}
+			}
+			return false
+		case *types.Tuple:
+			for i := 0; i < u.Len(); i++ {
+				if walk(u.At(i).Type()) {
+					return true
+				}
+			}
+			return false
+		}
+		return true // interface, signature, type parameter, ...
+	}
+	out := walk(root)
+	typeContainMemo[key] = out
+	return out
+}
+
+func isAggregate(t types.Type) bool {
+	switch t.Underlying().(type) {
+	case *types.Struct, *types.Slice, *types.Array, *types.Map:
+		return true
+	}
+	return false
 }
